@@ -15,5 +15,8 @@ CHECK = {
         unit("storagex-fsm", "storagex", _C13_COMMON, "^TestVerif_C13_FSM$",
              quick={"checks": 300, "shards": 1, "cap": 600},
              thorough={"checks": 1500, "shards": 16, "cap": 2400}, no_ulimit=True),
+        unit("raft-listing", "raft", ["raft/c13_raft_test.go"], "^TestVerif_C13_RaftListing$",
+             quick={"checks": 300, "shards": 1, "cap": 600},
+             thorough={"checks": 1500, "shards": 16, "cap": 2400}, no_ulimit=True),
     ],
 }
